@@ -55,6 +55,7 @@ namespace pika::detail {
             {
                 if (current == end_node) current = 0;
                 detail::barrier_phase_t expect = old_phase;
+                PIKA_VERIF_POINT(51, this, current, static_cast<std::uint64_t>(round));
                 if (current == last_node && (current_expected & 1))
                 {
                     if (state[current].tickets[round].phase.compare_exchange_strong(
